@@ -250,6 +250,33 @@ fn c11_scn(label: &str, mask: Option<&'static str>, defm: (bool, bool, bool, boo
     s
 }
 
+/// "No user can change another user's modes": two users whose nicknames differ only
+/// in letter case are two users (the server keys users by the exact nick).
+fn c11_case_scn() -> ChatScn {
+    let mut s = ChatScn::new("c11-case-variant-nicks", oper_cfg(None), vec![part(0, "fanny", "fan", "fu"), part(1, "Fanny", "Fan", "gu"), part(2, "wit", "witty", "wu")], 0);
+    s.prelude = vec![(2, "MODE wit +w".into())];
+    for slot in 0..2 {
+        for t in ["OPER op oppw", "MODE {peer} -o", "MODE {peer} +i", "MODE {peer} -w", "MODE {peer}", "MODE {me} +w", "MODE {me} -o", "KILL {peer} :c", "NICK {alt}"] {
+            s.alphabet_for.push((slot, t));
+        }
+    }
+    s.focus = Focus::all();
+    s.invariants = vec!["operators-count", "wallops-set", "dangling-wallops"];
+    for slot in 0..2 {
+        s.probes_for.push((slot, "MODE {me}"));
+    }
+    s.probe_focus = Some(Focus { cats: vec![], relays: false, relay_verbs: None, actor: true, actor_codes: Some(vec!["221"]), closes: false });
+    s
+}
+
+/// "Predefined operators" and "default user modes" as C20 sees them.
+pub fn c20_oper_parts(quick: bool) -> Vec<Part> {
+    vec![
+        Part::Bfs(Box::new(c11_scn("mask-match-def-wallops", Some("*!~au@127.0.0.1"), (false, false, false, false, true), false)), lim(if quick { 4 } else { 5 }, 2_000_000, if quick { 8.0 } else { 300.0 })),
+        Part::Bfs(Box::new(c11_scn("mask-mismatch-def-localoper", Some("*!*@10.*"), (false, false, true, false, false), false)), lim(if quick { 4 } else { 5 }, 2_000_000, if quick { 8.0 } else { 300.0 })),
+    ]
+}
+
 fn c11_plan_parts(quick: bool) -> Vec<Part> {
     let mut parts = vec![];
     let masks: Vec<(&str, Option<&'static str>)> = vec![("nomask", None), ("mask-match", Some("*!~au@127.0.0.1")), ("mask-mismatch", Some("*!*@10.*"))];
@@ -264,6 +291,7 @@ fn c11_plan_parts(quick: bool) -> Vec<Part> {
         }
     }
     parts.push(Part::Bfs(Box::new(c11_ghost(!quick)), lim(if quick { 6 } else { 7 }, 2_000_000, if quick { 20.0 } else { 600.0 })));
+    parts.push(Part::Bfs(Box::new(c11_case_scn()), lim(if quick { 4 } else { 5 }, 2_000_000, if quick { 20.0 } else { 300.0 })));
     parts
 }
 
@@ -272,9 +300,9 @@ fn c11_plan_parts(quick: bool) -> Vec<Part> {
 
 fn c19_scn(name: &str, full: bool) -> ChatScn {
     let mut s = ChatScn::new(name, oper_cfg(None), vec![part(0, "alice", "alicia", "au"), part(1, "bob", "bobby", "bu"), part(2, "carol", "caro", "cu")], 1);
-    let mut a: Vec<&'static str> = vec!["MODE {me} +i", "MODE {me} -i", "OPER op oppw", "MODE {me} -o", "MODE {me} -oO", "AWAY :t", "NICK {alt}", "JOIN #x", "PART #x", "QUIT"];
+    let mut a: Vec<&'static str> = vec!["MODE {me} +i", "MODE {me} -i", "OPER op oppw", "MODE {me} -o", "MODE {me} -oO", "AWAY :t", "NICK {alt}", "JOIN #x", "PART #x", "MODE #x +s", "QUIT"];
     if full {
-        a.extend(["MODE {me} -O", "MODE {me} +o", "MODE {me} +O", "MODE {me} -Oo", "MODE {me} -o-O+i", "AWAY", "KILL {peer} :x", "JOIN #y"]);
+        a.extend(["MODE #x -s", "MODE {me} -O", "MODE {me} +o", "MODE {me} +O", "MODE {me} -Oo", "MODE {me} -o-O+i", "AWAY", "KILL {peer} :x", "JOIN #y"]);
     }
     for slot in 0..3 {
         for t in &a {
@@ -484,6 +512,8 @@ pub fn plan(property: &str, quick: bool) -> Plan {
                 Part::Bfs(Box::new(c06_scn("c06-endings-preconfigured", false, true)), lim(if quick { 5 } else { 7 }, 3_000_000, t(15.0, 600.0))),
                 Part::Bfs(Box::new(c06_timeout_scn("c06-timeout")), lim(if quick { 6 } else { 8 }, 1_000_000, t(10.0, 300.0))),
                 Part::Bfs(Box::new(c06_ghost(!quick)), lim(if quick { 6 } else { 8 }, 2_000_000, t(20.0, 600.0))),
+                // an ending applied while another connection takes over the nickname: every interleaving (E-INT)
+                Part::Custom("int:kill-vs-reregistration".into(), Box::new(|| super::c18::burst_part("kill-vs-reregistration"))),
             ],
         },
         "C11" => Plan {
